@@ -15,7 +15,10 @@ package lexer
 //@ spec fn elidedAt(p *PeekingLexer, k int) bool = !eofAt(p, k) && p.elide[p.tokens[k].Type]
 //@ spec fn liveAt(p *PeekingLexer, k int) bool = !eofAt(p, k) && !p.elide[p.tokens[k].Type]
 //@ spec fn stopAt(p *PeekingLexer, k int) bool = eofAt(p, k) || !p.elide[p.tokens[k].Type]
-//@ spec rec cnt(p *PeekingLexer, k int) int = ite(k <= 0, 0, cnt(p, k-1) + ite(liveAt(p, k-1), 1, 0))
+// cnt(p, k): number of non-EOF, non-elided tokens before raw index k. The recursion is over the token
+// slice and elision map values (not over the PeekingLexer object), so copies of a PeekingLexer agree.
+//@ spec rec cntT(ts []Token, el map[TokenType]bool, k int) int = ite(k <= 0, 0, cntT(ts, el, k-1) + ite(ts[k-1].Type != EOF && !el[ts[k-1].Type], 1, 0))
+//@ spec fn cnt(p *PeekingLexer, k int) int = cntT(p.tokens, p.elide, k)
 //@ spec fn eofIdx(p *PeekingLexer) int = len(p.tokens) - 1
 //@ pred streamOK(p *PeekingLexer) = len(p.tokens) >= 1 && eofAt(p, eofIdx(p)) && forall(k, 0, eofIdx(p), !eofAt(p, k))
 //@ pred ckOK(p *PeekingLexer, c Checkpoint) = 0 <= c.rawCursor && c.rawCursor <= c.nextCursor && c.nextCursor <= eofIdx(p)
